@@ -127,7 +127,19 @@ func TestE2E(t *testing.T) {
 				payload++
 				c.Steps = append(c.Steps, sim.Step{Op: "pub", C: ci, Topic: rapid.SampledFrom(e2eTopics).Draw(t, "topic"), Payload: fmt.Sprintf("p%d", payload), PQoS: byte(rapid.IntRange(0, 1).Draw(t, "pqos"))})
 			case x < 11:
-				c.Steps = append(c.Steps, sim.Step{Op: "sub", C: ci, Filters: []string{rapid.SampledFrom(e2eFilters).Draw(t, "filter")}, QoS: []int{rapid.IntRange(0, 2).Draw(t, "qos")}})
+				// one SUBSCRIBE packet with 1-3 filters (each filter replays its own matches)
+				st := sim.Step{Op: "sub", C: ci}
+				nf := rapid.SampledFrom([]int{1, 1, 2, 3}).Draw(t, "nfilters")
+				seen := map[string]bool{}
+				for j := 0; j < nf; j++ {
+					f := rapid.SampledFrom(e2eFilters).Draw(t, "filter")
+					if !seen[f] {
+						seen[f] = true
+						st.Filters = append(st.Filters, f)
+						st.QoS = append(st.QoS, rapid.IntRange(0, 2).Draw(t, "qos"))
+					}
+				}
+				c.Steps = append(c.Steps, st)
 			default:
 				c.Steps = append(c.Steps, sim.Step{Op: "unsub", C: ci, Filters: []string{rapid.SampledFrom(e2eFilters).Draw(t, "filter")}})
 			}
